@@ -6,7 +6,8 @@ id=$1; demo=$2; dest=$3; pkg=$4; run=$5
 S=/tmp/scratch-verify-$id
 export GOFLAGS=-mod=mod GOPROXY=off GOSUMDB=off GOTOOLCHAIN=local
 rm -rf $S && cp -a /repo $S && cd $S || exit 2
-git apply /tmp/seeded/$id/patch.diff || { echo "PATCH DOES NOT APPLY"; exit 2; }
+P=/tmp/seeded/$id/patch.diff; [ -f /tmp/seeded/$id/patch-current.diff ] && P=/tmp/seeded/$id/patch-current.diff
+git apply $P || { echo "PATCH DOES NOT APPLY"; exit 2; }
 touched=$(git diff --name-only | xargs -n1 dirname | sort -u | sed 's#^#./#' | tr '\n' ' ')
 go build ./cl/... ./parser/... ./scanner/... ./printer/... ./format/... ./ast/... ./token/... ./tpl/... ./x/... ./cmd/... ./tool/... 2>&1 | tail -3 && echo "build: ok"
 echo "pinned tests of touched packages ($touched) with the patch:"; go test -vet=off -count=1 -skip 'TestErrImportPkg$' $touched 2>&1 | grep -v "no test files" | grep -E -- "^(--- FAIL|FAIL|ok)" | tail -6  # TestErrImportPkg fails in every copy of the repository (GOPROXY=off changes the go command's message)
